@@ -409,7 +409,8 @@ def check_property(pid, tier, seed, replay=None):
         lines.append("VIOLATION property=%s replay=%s no-failing-input-found" % (pid, path))
         violations.append(path)
 
-    write_evidence(pid, tier, seed, ev, time.time() - t0, len(violations))
+    if not replay:
+        write_evidence(pid, tier, seed, ev, time.time() - t0, len(violations))
     for l in lines:
         print(l, flush=True)
     log("%s %s: obligations %d/%d, cases %d (non-trivial distinct %d), disagreements %d, predicate failures %d, %.1fs" % (
